@@ -35,7 +35,8 @@ Long == "word1 word2 word3 word4 word5 word6 word7 word8 word9 word10 word11 wor
 W58 == "abcdefghijklmnopqrstuvwxyzabcdefghijklmnopqrstuvwxyzabcdef"
 W57 == "abcdefghijklmnopqrstuvwxyzabcdefghijklmnopqrstuvwxyzabcde"
 Alts == <<
-  <<"locus", "A">>, <<"locus", "A_LONG_LOCUS_NAME_23CH">>,
+  <<"locus", "A">>, <<"locus", "A_LONG_LOCUS_NAME_23CH">>, <<"locus", "A_LOCUS_NAME_OF_25_CHARS_">>, <<"locus", "A_LOCUS_NAME_OF_EXACTLY_28_CH">>,
+  <<"locus", "SIXTEEN_CHARS_XX">>, <<"locus", "SEVENTEEN_CHARS_X">>, <<"locus", "EIGHTEEN_CHARS_XXX">>,
   <<"molecule", "RNA">>, <<"molecule", "ss-DNA">>, <<"molecule", "AA">>,
   <<"topology", "circular">>,
   <<"division", "PHG">>, <<"division", "BCT">>,
@@ -69,7 +70,7 @@ Alts == <<
   <<"dblink", << <<"BioProject", "PRJNA1: with colon">> >>>>, <<"accession", "AC1-AC9 AC12">>,
   <<"references", <<Ref(1, "(bases 1 to 10)", "A,B., C,D. and E,F.", "", "Title: with a colon; and a semicolon", "J. Mol. Biol. 1 (1), 1-2 (2000)", "123", "")>>>>,
   <<"region", <<2, 8>>>>,
-  <<"len", 0>>, <<"len", 1>>, <<"len", 9>>, <<"len", 11>>, <<"len", 59>>, <<"len", 60>>, <<"len", 61>>, <<"len", 119>>, <<"len", 120>>, <<"len", 121>>,
+  <<"len", 0>>, <<"len", 1>>, <<"len", 9>>, <<"len", 11>>, <<"len", 59>>, <<"len", 60>>, <<"len", 61>>, <<"len", 119>>, <<"len", 120>>, <<"len", 121>>, <<"len", 999>>, <<"len", 1000>>, <<"len", 12345>>,
   <<"alpha", "print">>,
   <<"contig", [accession |-> "U00096.3", h |-> 0, t |-> 4641]>>,
   <<"feats", <<>>>>,
